@@ -6,7 +6,7 @@ from vf import gen, schema
 PROP = 'C20'
 REJECTIONS = ['wrong-type', 'outside-enum', 'non-numeric', 'wrong-ref-class', 'bad-origin-ref', 'bad-cast-dtype',
               'duplicate-dataset', 'unknown-keyword', 'name-not-str', 'bad-assign', 'frame-no-channels', 'units-on-unitless',
-              'dataset-name-not-text']
+              'dataset-name-not-text', 'refused-inside-hc-context']
 FAILED_WRITES = ['missing-data', 'inconsistent-dimension', 'flush-error', 'hc-breach-at-write', 'unequal-rows',
                  'index-not-1d', 'hc-nonuniform-index', 'incomplete-then-completed', 'frameless-channel-axis-mismatch', 'index-2d-then-channel-removed']
 META = {
@@ -133,6 +133,13 @@ def bad_op(r, t, rk, ctx_refs, existing_ops):
         if t != 'channel':
             return None
         op['dataset_name'] = r.choice([['x'], ['a', 'b'], {'k': 1}])
+    elif rk == 'refused-inside-hc-context':
+        # a call made inside `with high_compatibility_mode():` and refused there (lower-case name); the exception leaves the
+        # block, the rest of the specification is built outside it
+        if t == 'origin':
+            return None
+        op['name'] = 'refused only in hc mode'
+        op['in_hc'] = True
     elif rk == 'units-on-unitless':
         # units given (through a dict / AttrSetup) to an attribute that cannot carry units: refused with a RuntimeError
         f = first(('text', 'ident', 'status'))
